@@ -98,6 +98,12 @@ CHECKS = {
         "spsc_deliveries_are_committed (every read/peek delivers exactly the committed bytes at its position), spsc_prefix, spsc_contents (nothing lost; uncommitted bytes never visible), spsc_quiescent_contents, spsc_wait_free (a thread scheduled alone finishes within a bound of its own work). "
         "Tie: for each public function x N <= 16 (64 thorough) x every head pair x every request size, the logged sequence of atomic loads/stores with their memory orders, per-byte buffer accesses and any non-own plain head access equals the program the theorems are about; return value and heads too.",
    note="The C11 release/acquire fragment is rendered as the machine of Model/RingRA.lean (trusted rendering, argued in DESIGN.md §5-C04); a weakened order cannot be exhibited on x86 hardware, so it is caught as a log mismatch. reset/mlock are not thread-safe by contract and are outside the programs. Two-thread soak run is support only.", ref="§5 C04"),
+ "C07": dict(cat="proof", tech="Lean 4 theorems over component models with allocation oracles (B-tree: arbitrary Nat -> Bool oracle over every history; hash: refused table allocation on insert and on shrink; AVL: refused node) plus fault-injection correspondence and an every-fault-index sweep of the string/filesystem functions",
+   text="Proved: btree_insert_fault_atomic (for an ARBITRARY oracle, NO_MEM leaves contents and size unchanged, was caused by a refused request of this call, and the tree stays well formed), btree_survives_any_faults (invariant after any history under any oracle), btree_new_fault, "
+        "C03.insert_new (NO_MEM only if the bigger table was refused; table untouched) and C03.remove_present (removal completes and the invariant holds when shrinking is refused), avl_insert_fault_atomic. Tie: B-tree histories with single and persistent faults and continuations compared with the model "
+        "(whole tree + allocation events); hash and AVL likewise; ring construction, path builders, string_view_copy, environment expansion, create_directories, canonical/current/temp path, temporary directory swept over EVERY request index k (single and persistent) with an implementation-only oracle "
+        "(documented failure or fault-free result, no leak, no misuse, no crash under ASan/UBSan). copy_file's and file_equals' fallbacks are theorems/cases of C14/C15.",
+   note="For the string/filesystem functions the verdict is the implementation-only oracle (no separate Lean model of their allocation behaviour beyond C16/C10-12 value models).", ref="§5 C07"),
 }
 
 NOT_YET = "check not built yet in this revision (framework under construction; see DESIGN.md §8)"
